@@ -264,7 +264,7 @@ func (ty *ObjectType) String() string {
 		} else {
 			b.WriteString("; ")
 		}
-		b.WriteString(p)
+		b.WriteString(escapeNonPrint(p))
 		b.WriteString(": ")
 		b.WriteString(ty.Props[p].String())
 	}
